@@ -1,7 +1,7 @@
 SPECIFICATION Spec
 CONSTANTS
   MaxN = 4
-  NS = 2
+  NS = 3
   AdvMode = "keys"
 INVARIANT CallOK
 INVARIANT QueueOK
